@@ -99,3 +99,5 @@ def run(repo, chk):
            "ptera/transform.py (visit_FunctionDef, visit_Yield) + ptera/overlay.py (proceed)",
            "a generator suspended at a yield keeps the ContextVar set to its own handler collection: code run by the driver between two next() calls is matched "
            "as if it ran inside the generator, and closing generators out of order (or after their overlay ended) resets stale tokens and re-installs dead handlers")
+    from .shared import plus_obligations
+    plus_obligations(repo, chk, "R09.2", "a collection that was built while a suspended generator's context was current is never installed again for the driver")
